@@ -430,7 +430,7 @@ func ruleWgCount(c *Ctx, r *R, names ...string) {
 		if cst, ok := arg.(*ssa.Const); ok {
 			okCount = int(cst.Int64()) == goN
 			detail = "wg.Add(" + cst.Value.String() + ") but " + itoa(goN) + " goroutines defer wg.Done()"
-		} else if call, ok := arg.(*ssa.Call); ok {
+		} else if call, ok := resolveVal(arg).(*ssa.Call); ok {
 			if b2, ok := call.Call.Value.(*ssa.Builtin); ok && b2.Name() == "len" && goN == 1 {
 				// one `go` site inside a loop over 0..len(x)
 				for _, g := range bi.spawned {
